@@ -23,7 +23,7 @@ LEVEL = META['level']
 RULE = ('a case = one complete fragmented transfer (read: type,N,i,n,B; write: type,N,i,n,tiling); enumerated completely in the scaled-down space, seeded for large transfers; '
         'distinct by that tuple; non-trivial = more than one fragment was needed or the range did not start at 0')
 ASSUMPTIONS = ['Logix.MAX_BYTES is the documented user-alterable reply budget', 'Read Tag Fragmented is sent inside the 0x52 Unconnected Send wrapper (a bare 0x52 is parsed as the wrapper by design)']
-REQUIRED = ['write:equal-but-not-identical', 'read:transfers', 'read:multi-fragment', 'read:status-0x06', 'read:status-0x00', 'read:budget-smaller-than-element', 'write:tilings', 'write:shuffled',
+REQUIRED = ['same-shape:transfers', 'write:equal-but-not-identical', 'read:transfers', 'read:multi-fragment', 'read:status-0x06', 'read:status-0x00', 'read:budget-smaller-than-element', 'write:tilings', 'write:shuffled',
             'monitor:reassembly', 'monitor:progress', 'monitor:untouched-elements', 'large:transfers']
 TIMEOUT = {'quick': 300, 'thorough': 2400}
 SOFT = {'quick': 35, 'thorough': 900}
@@ -169,6 +169,11 @@ class Driver:
         return True
 
 
+def rc_size(t):
+    from vlib import refcodec as rc
+    return rc.size_of(t)
+
+
 def tilings(n, rng, quick):
     out = []
     for cut in range(1, n):
@@ -235,6 +240,28 @@ def run(ctx):
                                     ctx.count('write:equal-but-not-identical')
                                     ctx.enumerated(1)
                         d.set_all(distinct_values(t, N))
+            finally:
+                d.close()
+    # the same transfer shape for two element types of equal size, one after the other in this process (each order in a different
+    # shard, i.e. a different process): whatever the library keeps between transfers must not depend on the element type alone by size
+    pairs = [('BOOL', 'USINT'), ('BOOL', 'SINT'), ('SINT', 'USINT'), ('INT', 'UINT'), ('DINT', 'REAL'), ('LINT', 'LREAL')]
+    jobs = [(a, b) for a, b in pairs] + [(b, a) for a, b in pairs]
+    for j, (t1, t2) in enumerate(jobs):
+        if j % ctx.nshards != ctx.shard:
+            continue
+        N = 600 if rc_size(t1) == 1 else 300
+        for t in (t1, t2):
+            d = Driver(ctx, t, N, 488)
+            try:
+                d.set_all(distinct_values(t, N, salt=j))
+                fr = d.read_transfer(0, N)
+                fr2 = d.read_transfer(17, N - 17 - 11)
+                d.write_tiling(5, 180, [(0, 90), (90, 180)], [1, 0], salt=j + 3)
+                fr3 = d.read_transfer(0, N)
+                ctx.case(('same-shape', t1, t2, t), nontrivial=True)
+                ctx.count('same-shape:transfers')
+                if not (fr and fr2 and fr3):
+                    return
             finally:
                 d.close()
     # large transfers at the default budget and a few others
